@@ -1,6 +1,8 @@
 package vanguard
 
 import (
+	"strings"
+
 	"connectrpc.com/connect"
 	"google.golang.org/protobuf/reflect/protoreflect"
 )
@@ -185,4 +187,112 @@ func hParamBoundary() {
 		got, want = uint64(uint32(got)), uint64(uint32(want))
 	}
 	verifAssert(got == want, "C07: an accepted decimal literal is stored exactly")
+}
+
+const refB64Std = "ABCDEFGHIJKLMNOPQRSTUVWXYZabcdefghijklmnopqrstuvwxyz0123456789+/"
+
+// refBase64Decode: independent base64 reader: both alphabets ('+' '/' or '-' '_', not mixed), with or without
+// '=' padding (complete padding only), no stray bits check beyond what RFC 4648 decoders of Go enforce (none).
+func refBase64Decode(raw []byte) ([]byte, bool) {
+	// CR and LF are skipped wherever they stand (MIME line breaks; encoding/base64 documents this leniency and
+	// the property does not forbid it) - but the choice of padded/unpadded form is made on the raw length
+	var in []byte
+	for _, c := range raw {
+		if c != '\r' && c != '\n' {
+			in = append(in, c)
+		}
+	}
+	n := len(in)
+	pad := 0
+	for n > 0 && in[n-1] == '=' && pad < 2 {
+		n--
+		pad++
+	}
+	if pad > 0 && (n+pad)%4 != 0 {
+		return nil, false
+	}
+	if n%4 == 1 {
+		return nil, false
+	}
+	std, url := false, false
+	var out []byte
+	var acc uint32
+	bits := 0
+	for i := 0; i < n; i++ {
+		c := in[i]
+		var v uint32
+		switch {
+		case c >= 'A' && c <= 'Z':
+			v = uint32(c - 'A')
+		case c >= 'a' && c <= 'z':
+			v = uint32(c-'a') + 26
+		case c >= '0' && c <= '9':
+			v = uint32(c-'0') + 52
+		case c == '+':
+			v, std = 62, true
+		case c == '/':
+			v, std = 63, true
+		case c == '-':
+			v, url = 62, true
+		case c == '_':
+			v, url = 63, true
+		default:
+			return nil, false
+		}
+		acc = acc<<6 | v
+		bits += 6
+		if bits >= 8 {
+			bits -= 8
+			out = append(out, byte(acc>>uint(bits)))
+		}
+	}
+	if std && url {
+		return nil, false
+	}
+	return out, true
+}
+
+// hParamBytes: bytes fields in URLs. (a) every byte string written into a URL (getParameter: URL-safe base64)
+// reads back as the same bytes; the standard alphabet and unpadded forms read back too. (b) an arbitrary
+// parameter text is either rejected as invalid_argument or decodes to exactly the bytes it denotes.
+func hParamBytes() {
+	field := &fakeField{name: "f", kind: protoreflect.BytesKind}
+	fields := []protoreflect.FieldDescriptor{field}
+	msg := &fakeMsg{desc: newFakeMsgDesc("p.M", field)}
+	if verifChoose("direction", 2) == 0 {
+		maxLen := 3
+		if verifTier() == 1 {
+			maxLen = 5
+		}
+		data := nondetBytes("data", verifChoose("len", maxLen+1))
+		msg.fvals[0], msg.fset[0] = string(data), true
+		text, err := getParameter(msg, fields, 0)
+		verifObsStr("url-text", text)
+		verifReach("bytes-to-url")
+		verifAssert(err == nil, "C07: a bytes field can be written into a URL")
+		forms := []string{text, strings.TrimRight(text, "=")}
+		std := strings.ReplaceAll(strings.ReplaceAll(text, "-", "+"), "_", "/")
+		forms = append(forms, std, strings.TrimRight(std, "="))
+		for _, f := range forms {
+			back := &fakeMsg{desc: msg.desc}
+			verifAssert(setParameter(back, fields, f) == nil && back.fvals[0] == string(data), "C07: bytes written into a URL (either alphabet, padded or not) read back unchanged")
+		}
+		return
+	}
+	maxLen := 3
+	if verifTier() == 1 {
+		maxLen = 4
+	}
+	in := nondetBytes("param", verifChoose("len", maxLen)+1)
+	err := setParameter(msg, fields, string(in))
+	want, ok := refBase64Decode(in)
+	verifObsBool("accepted", err == nil)
+	verifObsStr("value", msg.fvals[0])
+	verifReach("text-to-bytes")
+	if err != nil {
+		verifAssert(connect.CodeOf(err) == connect.CodeInvalidArgument, "C07: a parameter that is not base64 is rejected as invalid_argument")
+		return
+	}
+	verifReach("text-accepted")
+	verifAssert(ok && msg.fvals[0] == string(want), "C07: an accepted bytes parameter denotes exactly the stored bytes")
 }
